@@ -189,6 +189,12 @@ func oracleC01(s *Sim, y *Sys) {
 			}
 		}
 		// (f) ack hook, as observable when Close has returned
+		// with application hooks that take time the dispatcher may lag behind Close (recorded finding);
+		// the locus keeps that case apart from hooks that return at once
+		hl := ""
+		if h.HookDelay > 0 {
+			hl = "slow-hooks"
+		}
 		if cv, ok := h.CloseOp.Meta.(*closeView); ok && cv.allAcked {
 			s.Stat("c01.all-acked-at-close")
 			rep := map[uint32][]message.ResultCode{}
@@ -198,7 +204,7 @@ func oracleC01(s *Sim, y *Sys) {
 			for q, sent := range h.B.ResultsSent {
 				got := rep[q]
 				if len(got) == 0 {
-					s.Violate("C01.ack-hook-missing", "", "%s: broker acknowledged seq %d (%v) but the ack hook had not been told when Close returned (first quiescence, no clock advance)", u, q, sent)
+					s.Violate("C01.ack-hook-missing", hl, "%s: broker acknowledged seq %d (%v) but the ack hook had not been told when Close returned (first quiescence, no clock advance; hooks take %v)", u, q, sent, h.HookDelay)
 					continue
 				}
 				if len(got) > len(sent) {
@@ -239,9 +245,23 @@ func oracleC01(s *Sim, y *Sys) {
 				}
 				for _, q := range cv.cutSeqs {
 					if !rep[q] {
-						s.Violate("C01.close-returned-before-ack", "", "%s: Close returned nil after %v (close timeout %v) although the result of chunk seq %d had not come back: the broker acknowledges every chunk (possibly out of order), so every result must have been reported to the ack hook by the time Close returns", u, cv.elapsed, cto, q)
+						s.Violate("C01.close-returned-before-ack", hl, "%s: Close returned nil after %v (close timeout %v) although the result of chunk seq %d had not come back: the broker acknowledges every chunk (possibly out of order), so every result must have been reported to the ack hook by the time Close returns", u, cv.elapsed, cto, q)
 						break
 					}
+				}
+			}
+		}
+		// (f'') at the end of the run (every handler has had time to run): each result the broker sent
+		// was reported exactly once, whatever the speed of the hooks
+		{
+			cnt := map[uint32]int{}
+			for _, r := range h.After {
+				cnt[r.Seq]++
+			}
+			for q, sent := range h.B.ResultsSent {
+				if len(sent) == 1 && cnt[q] != 1 {
+					s.Violate("C01.ack-hook-count", "end-of-run", "%s: the broker sent exactly one result for seq %d; by the end of the run the ack hook was told %d times (hooks take %v)", u, q, cnt[q], h.HookDelay)
+					break
 				}
 			}
 		}
